@@ -443,11 +443,6 @@ package gocql
 //@   requires info != nil
 //@   nonnil_payload value
 
-//@ func unmarshalVarint
-//@   props C05
-//@   requires info != nil
-//@   nonnil_payload value
-
 //@ func unmarshalDecimal
 //@   props C05
 //@   requires info != nil
@@ -531,13 +526,6 @@ package gocql
 //@   props C02 C05 C12
 //@   ensures info.proto > 2 ==> (err == nil) == (len(data) >= 4) && (err == nil ==> size == int(int32(be32(data, 0))) && read == 4)
 //@   ensures info.proto <= 2 ==> (err == nil) == (len(data) >= 2) && (err == nil ==> size == int(be16(data, 0)) && read == 2)
-
-// vint (duration): leading-ones length prefix, then big-endian payload; zig-zag.
-//@ func decVint
-//@   props C05 C12
-//@   requires start >= 0
-//@   ensures result2 == nil ==> start < result1 && result1 <= len(data) && result1 <= start+9
-//@   loop 0: invariant start <= i && i <= start+numBytes && 1 <= numBytes && numBytes <= 8 && start+numBytes+1 <= len(data)
 
 //@ func decVints
 //@   props C05 C12
@@ -929,6 +917,112 @@ package gocql
 //@   requires info != nil
 //@   nonnil_payload value
 //@   ensures result == nil && (len(data) == 8 ==> bits(*unbox(value, *float64)) == be64(data, 0))
+
+// varint: minimal-length two's complement (spec §6.24)
+//@ func bytesToInt64
+//@   props C12 C02
+//@   requires len(data) <= 8
+//@   loop 0: unroll 8
+//@   ensures uint64(ret) == be_uval(data, len(data))
+
+//@ func bytesToUint64
+//@   props C12 C02
+//@   requires len(data) <= 8
+//@   loop 0: unroll 8
+//@   ensures ret == be_uval(data, len(data))
+
+//@ func marshalVarint
+//@   props C12 C02
+//@   scenario value: int | int64 | int32 | int16 | int8 | uint64
+//@   requires info != nil
+//@   loop 0: unroll 9
+//@   cases 1 8 varint_len(int64(unbox(value, $T)))
+//@   ensures[@signed] result1 == nil && len(result0) == varint_len(int64(unbox(value, $T))) && varint_val(result0, len(result0)) == int64(unbox(value, $T))
+//@   ensures[@uint64] result1 == nil && (unbox(value, uint64) <= 1<<63-1 ==> len(result0) == varint_len(int64(unbox(value, uint64))) && varint_val(result0, len(result0)) == int64(unbox(value, uint64)))
+//@   ensures[@uint64] unbox(value, uint64) > 1<<63-1 ==> len(result0) == 9 && result0[0] == 0 && be64(result0, 1) == unbox(value, uint64)
+
+//@ func unmarshalVarint
+//@   props C12 C02
+//@   scenario value: *int | *int64 | *int32 | *int16 | *int8
+//@   requires info != nil
+//@   nonnil_payload value
+//@   ensures[@ptr-signed] 1 <= len(data) && len(data) <= 8 ==> (result == nil) == (int64($E(old(varint_val(data, len(data))))) == old(varint_val(data, len(data))))
+//@   ensures[@ptr-signed] 1 <= len(data) && len(data) <= 8 && result == nil ==> *unbox(value, $T) == $E(old(varint_val(data, len(data))))
+
+// date: 2^31 + floor(milliseconds / 86 400 000) (days before 1970 count with floor)
+//@ func marshalDate
+//@   props C12 C02
+//@   scenario value: int64
+//@   requires info != nil
+//@   ensures result1 == nil && len(result0) == 4 && be32(result0, 0) == cql_date(unbox(value, int64))
+
+// time: nanoseconds since midnight as [bigint]; timestamp: milliseconds since the epoch as [bigint]
+//@ func marshalTime
+//@   props C12 C02
+//@   scenario value: int64
+//@   requires info != nil
+//@   ensures result1 == nil && len(result0) == 8 && be64(result0, 0) == uint64(unbox(value, int64))
+
+//@ func marshalTimestamp
+//@   props C12 C02
+//@   scenario value: int64
+//@   requires info != nil
+//@   ensures result1 == nil && len(result0) == 8 && be64(result0, 0) == uint64(unbox(value, int64))
+
+// vint: size and value (Cassandra VIntCoding), zig-zag for signed values
+//@ func encVint
+//@   props C12 C02
+//@   loop 0: unroll 9
+//@   ensures len(result) == vint_size(zigzag(v)) && vint_uval(result, 0) == zigzag(v) && 1 + vint_extra(result[0]) == len(result)
+
+//@ func decVint
+//@   props C05 C12 C02
+//@   requires start >= 0
+//@   ensures result2 == nil ==> start < result1 && result1 <= len(data) && result1 <= start+9
+//@   ensures result2 == nil ==> result1 == start + 1 + vint_extra(data[start]) && result0 == unzigzag(vint_uval(data, start))
+//@   ensures (result2 == nil) == (start < len(data) && start + 1 + vint_extra(data[start]) <= len(data))
+//@   loop 0: unroll 8
+
+//@ func daysSinceEpoch
+//@   props C12 C02
+//@   ensures uint32(result + 1<<31) == cql_date(timestamp)
+
+// duration: three vints (months, days, nanoseconds), each zig-zag encoded (spec §6.6)
+//@ func encVints
+//@   props C12 C02
+//@   ensures len(result) == vint_size(zigzag(int64(months))) + vint_size(zigzag(int64(seconds))) + vint_size(zigzag(nanos))
+//@   ensures vint_uval(result, 0) == zigzag(int64(months)) && vint_uval(result, vint_size(zigzag(int64(months)))) == zigzag(int64(seconds))
+//@   ensures vint_uval(result, vint_size(zigzag(int64(months))) + vint_size(zigzag(int64(seconds)))) == zigzag(nanos)
+
+//@ func marshalDuration
+//@   props C12 C02
+//@   scenario value: int64 | Duration
+//@   count_calls encVints encBigInt
+//@   requires info != nil
+//@   ensures result1 == nil && encVints_calls == 1 && encBigInt_calls == 0 && result0 == encVints_ret0
+//@   before[@int64] encVints: arg0 == 0 && arg1 == 0 && arg2 == unbox(value, int64)
+//@   before[@Duration] encVints: arg0 == unbox(value, Duration).Months && arg1 == unbox(value, Duration).Days && arg2 == unbox(value, Duration).Nanoseconds
+
+// collection framing: element count / element length as [int] (protocol >= 3) or [short] (protocol <= 2)
+//@ func writeCollectionSize
+//@   props C12 C02
+//@   requires buf != nil
+//@   modifies buf.buf
+//@   ensures info.proto > 2 && n <= 1<<31-1 ==> result == nil && len(buf.buf) == old(len(buf.buf)) + 4 && be32(buf.buf, old(len(buf.buf))) == uint32(n)
+//@   ensures info.proto <= 2 && n <= 65535 ==> result == nil && len(buf.buf) == old(len(buf.buf)) + 2 && be16(buf.buf, old(len(buf.buf))) == uint16(n)
+//@   ensures (info.proto > 2 && n > 1<<31-1) || (info.proto <= 2 && n > 65535) ==> result != nil
+//@   ensures forall(k, 0 <= k && k < old(len(buf.buf)), buf.buf[k] == old(buf.buf[k]))
+
+// [bytes] / [int] appended to a buffer (tuple and UDT fields, frame values): -1 length for null
+//@ func appendInt
+//@   props C12 C02 C03
+//@   ensures len(result) == len(p) + 4 && be32(result, len(p)) == uint32(n) && forall(k, 0 <= k && k < len(p), result[k] == p[k])
+
+//@ func appendBytes
+//@   props C12 C02 C03
+//@   ensures d == nil ==> len(result) == len(p) + 4 && be32(result, len(p)) == 0xffffffff
+//@   ensures d != nil ==> len(result) == len(p) + 4 + len(d) && be32(result, len(p)) == uint32(int32(len(d))) && forall(k, 0 <= k && k < len(d), result[len(p)+4+k] == d[k])
+//@   ensures forall(k, 0 <= k && k < len(p), result[k] == p[k])
 
 // ---------------------------------------------------------------------------
 // uuid.go (RFC 4122; oracle in /verif/spec/bv.smt2 blocks uuid, hex)
